@@ -41,28 +41,26 @@ pub fn run_with_vm_and_opt(
         known_globals.insert(builtin.to_string());
     }
 
+    let mut accepted_imports = None;
     let main_stmts = if has_needs {
         let cwd = std::env::current_dir().unwrap_or_else(|_| std::path::PathBuf::from("."));
         let repl_path = cwd.join("repl.aelys");
 
         let imports = load_modules_for_program(&stmts, &repl_path, src.clone(), vm)?;
 
+        // the imported names are used to compile this input; they are recorded in the VM for
+        // later inputs only once this input has been accepted (see below): an input that is
+        // rejected at compile time must not leave its imports behind
         module_aliases.extend(imports.module_aliases.iter().cloned());
-        vm.add_repl_module_aliases(&imports.module_aliases);
-
         known_globals.extend(imports.known_globals.iter().cloned());
-        vm.add_repl_known_globals(&imports.known_globals);
-
         known_native_globals.extend(imports.known_native_globals.iter().cloned());
-        vm.add_repl_known_native_globals(&imports.known_native_globals);
-
         symbol_origins.extend(
             imports
                 .symbol_origins
                 .iter()
                 .map(|(k, v)| (k.clone(), v.clone())),
         );
-        vm.add_repl_symbol_origins(&imports.symbol_origins);
+        accepted_imports = Some(imports);
 
         stmts
             .into_iter()
@@ -110,6 +108,12 @@ pub fn run_with_vm_and_opt(
     let (mut function, mut compile_heap, new_globals) = compiler.compile_typed(&typed_program)?;
 
     vm.update_global_mutability(new_globals);
+    if let Some(imports) = accepted_imports {
+        vm.add_repl_module_aliases(&imports.module_aliases);
+        vm.add_repl_known_globals(&imports.known_globals);
+        vm.add_repl_known_native_globals(&imports.known_native_globals);
+        vm.add_repl_symbol_origins(&imports.symbol_origins);
+    }
 
     let remap = vm.merge_heap(&mut compile_heap)?;
     function.remap_constants(&remap);
